@@ -11,7 +11,7 @@ variable {gh : Ghost}
 
 theorem SInv.setX_same {st : St} (inv : SInv gh st) (i : Nat) (x : WinX) (hp : x.pen = (getX st i).pen)
     (ha : x.appRefs = (getX st i).appRefs) : SInv gh (setX st i x) := by
-  refine ⟨inv.toSInvB.of_wx rfl rfl rfl rfl rfl (setX_map_pen x hp), ?_⟩
+  refine ⟨inv.toSInvB.of_wx rfl rfl rfl rfl rfl (setX_map_pen x hp), ?_, inv.glive⟩
   intro j w hl
   rw [getX_setX]
   split
@@ -34,7 +34,7 @@ theorem SInv.set_pen {st : St} (inv : SInv gh st) {k : Nat} {p p' : Obj} (hk : s
   have hlt := pens_size_lt hk
   have hh : ∀ (j : Nat), holders { st with pens := st.pens.setIfInBounds k p' } j = holders st j := fun j => holders_congr rfl j
   refine ⟨⟨inv.tinv, inv.wx_size, inv.rc, List.nodup_nil, by intro i hi; simp at hi, inv.dead_pen, ⟨?_, ?_, ?_⟩,
-    inv.term_held, inv.term_free, inv.term_dead, inv.simple⟩, inv.wref⟩
+    inv.term_held, inv.term_free, inv.term_dead, inv.simple⟩, inv.wref, inv.glive⟩
   rotate_left 2
   · intro j q hq hfq
     simp only [Array.getElem?_setIfInBounds] at hq
@@ -117,7 +117,7 @@ theorem punref_ok {st : St} (inv : SInv gh st) {k : Nat} (h : heldP st k = true)
 theorem pen_new_ok {st : St} (inv : SInv gh st) : SInv gh { st with pens := st.pens.push {} } := by
   have hh : ∀ (j : Nat), holders { st with pens := st.pens.push {} } j = holders st j := fun j => holders_congr rfl j
   refine ⟨⟨inv.tinv, inv.wx_size, inv.rc, List.nodup_nil, by intro i hi; simp at hi, inv.dead_pen, ⟨?_, ?_, ?_⟩,
-    inv.term_held, inv.term_free, inv.term_dead, inv.simple⟩, inv.wref⟩
+    inv.term_held, inv.term_free, inv.term_dead, inv.simple⟩, inv.wref, inv.glive⟩
   rotate_left 2
   · intro j q hq hfq
     simp only [Array.getElem?_push] at hq
@@ -252,7 +252,8 @@ theorem assignPen_ok {st : St} (inv : SInv gh st) {win : Nat} {ww : Win} (hw : L
     by simp only [setX_term, setX_tree, htm1, ht1]; exact inv.term_held,
     by simp only [setX_term, setX_tree, htm1, ht1]; exact inv.term_free,
     by simp only [setX_term, setX_tree, htm1, ht1]; exact inv.term_dead,
-    ⟨by simp only [setX, hrb1]; exact inv.simple.1, by simp only [setX, hstr1]; exact inv.simple.2⟩⟩, ?_⟩
+    ⟨by simp only [setX, hrb1]; exact inv.simple.1, by simp only [setX, hstr1]; exact inv.simple.2⟩⟩, ?_,
+    by simp only [setX_tree, ht1]; exact inv.glive⟩
   rotate_right
   · intro i w hl
     rw [happ i]
@@ -326,7 +327,8 @@ theorem setPen_ok {st : St} (inv : SInv gh st) {win : Nat} {ww : Win} (hw : Live
       by simp only [setX_term, setX_tree, htm1, ht1]; exact inv.term_held,
       by simp only [setX_term, setX_tree, htm1, ht1]; exact inv.term_free,
       by simp only [setX_term, setX_tree, htm1, ht1]; exact inv.term_dead,
-      ⟨by simp only [setX, hrb1]; exact inv.simple.1, by simp only [setX, hstr1]; exact inv.simple.2⟩⟩, ?_⟩
+      ⟨by simp only [setX, hrb1]; exact inv.simple.1, by simp only [setX, hstr1]; exact inv.simple.2⟩⟩, ?_,
+      by simp only [setX_tree, ht1]; exact inv.glive⟩
     rotate_right
     · intro i w hl
       rw [happ i]
@@ -367,7 +369,7 @@ theorem SInv.set_term {st : St} (inv : SInv gh st) (tm : Obj)
     (h2 : tm.freed = false → (¬ ∃ r, LiveW st.tree 0 r) → tm.refcount = (tm.appRefs : Int) + (gh.term : Int) ∧ 1 ≤ tm.refcount)
     (h3 : tm.freed = true → (¬ ∃ r, LiveW st.tree 0 r) ∧ tm.appRefs = 0 ∧ gh.term = 0) : SInv gh { st with term := tm } := by
   refine ⟨⟨inv.tinv, inv.wx_size, inv.rc, List.nodup_nil, by intro i hi; simp at hi, inv.dead_pen,
-    ⟨inv.pens.rc, inv.pens.ex, inv.pens.pos⟩, ?_, ?_, ?_, inv.simple⟩, inv.wref⟩
+    ⟨inv.pens.rc, inv.pens.ex, inv.pens.pos⟩, ?_, ?_, ?_, inv.simple⟩, inv.wref, inv.glive⟩
   · intro hf h; exact h1 hf (by rcases h with h | h; exact h; simp at h)
   · intro hf h; exact h2 hf (fun h' => h (.inl h'))
   · intro hf; exact ⟨fun h => (h3 hf).1 (by rcases h with h | h; exact h; simp at h), (h3 hf).2⟩
@@ -444,7 +446,7 @@ theorem heldB_pos {st : St} {k : Nat} {b : RBObj} (h : heldB st k = true) (hb : 
 theorem SInv.set_simple {st : St} (inv : SInv gh st) (r : Array RBObj) (s : Array StrObj)
     (h : SimpleOk { st with rbs := r, strs := s }) : SInv gh { st with rbs := r, strs := s } :=
   ⟨⟨inv.tinv, inv.wx_size, inv.rc, List.nodup_nil, by intro i hi; simp at hi, inv.dead_pen,
-    ⟨inv.pens.rc, inv.pens.ex, inv.pens.pos⟩, inv.term_held, inv.term_free, inv.term_dead, h⟩, inv.wref⟩
+    ⟨inv.pens.rc, inv.pens.ex, inv.pens.pos⟩, inv.term_held, inv.term_free, inv.term_dead, h⟩, inv.wref, inv.glive⟩
 
 /-- A change of one buffer object. -/
 theorem SInv.set_rb {st : St} (inv : SInv gh st) (k : Nat) (b' : RBObj)
@@ -480,7 +482,7 @@ theorem SInv.set_str {st : St} (inv : SInv gh st) (k : Nat) (s' : StrObj)
 
 theorem SInv.set_penx {st : St} (inv : SInv gh st) (x : Array PenX) : SInv gh { st with penx := x } :=
   ⟨⟨inv.tinv, inv.wx_size, inv.rc, List.nodup_nil, by intro i hi; simp at hi, inv.dead_pen,
-    ⟨inv.pens.rc, inv.pens.ex, inv.pens.pos⟩, inv.term_held, inv.term_free, inv.term_dead, inv.simple⟩, inv.wref⟩
+    ⟨inv.pens.rc, inv.pens.ex, inv.pens.pos⟩, inv.term_held, inv.term_free, inv.term_dead, inv.simple⟩, inv.wref, inv.glive⟩
 
 theorem heldS_spec {st : St} {k : Nat} (h : heldS st k = true) :
     ∃ s, st.strs[k]? = some s ∧ s.freed = false ∧ 0 < s.appRefs ∧ k < st.strs.size := by
@@ -564,7 +566,7 @@ theorem SInv.init (lines cols : Int) (hgt : gh.term = 0) (hgw : gh.win 0 = 0) :
     · intro s hs; cases hs
   have hroot : ∃ r, LiveW ({ wins := #[({ rect := ⟨0, 0, lines, cols⟩, isRoot := true } : Win)], root := {} } : Tree) 0 r :=
     ⟨{ rect := ⟨0, 0, lines, cols⟩, isRoot := true }, by simp, rfl⟩
-  refine ⟨⟨tinv, rfl, ?_, List.nodup_nil, by intro i hi; simp at hi, ?_, ⟨?_, ?_, ?_⟩, ?_, ?_, ?_, ?_⟩, ?_⟩
+  refine ⟨⟨tinv, rfl, ?_, List.nodup_nil, by intro i hi; simp at hi, ?_, ⟨?_, ?_, ?_⟩, ?_, ?_, ?_, ?_⟩, ?_, fun _ => hroot⟩
   rotate_right
   · intro i w hl; obtain ⟨rfl, rfl⟩ := hlive i w hl
     refine ⟨?_, fun _ => ?_⟩
